@@ -24,7 +24,7 @@ open PlzVerif.Walk (Name)
 /-- The facts read from /repo on this run. -/
 def facts : Facts :=
   { defaultMode := C34.defaultMode
-    dirBeforeSymlink := C34.callbackOrder == ["dir:MkdirAll", "symlink:copySymlink", "else:CopyOrLinkFile"]
+    tempThenRename := C34.tempThenRename
     topLevelSymlinkAware := C34.topLevelSymlinkAware
     linkRecreatesSymlink := C34.linkRecreatesSymlink
     fallbackUsesSourceMode := C34.fallbackUsesSourceMode }
@@ -34,7 +34,8 @@ def facts : Facts :=
 def FactsOK : Bool :=
   C34.usesLstat && C34.callbackOrder == ["dir:MkdirAll", "symlink:copySymlink", "else:CopyOrLinkFile"] &&
   C34.destExpr == "filepath.Join($to, $name[len($from):])" && C34.linkRecreatesSymlink && C34.symlinkVerbatim &&
-  C34.fallbackUsesSourceMode && C34.recursiveCopyArgs == "mode,false,false" && C34.recursiveLinkArgs == "0,true,true"
+  C34.fallbackUsesSourceMode && C34.recursiveCopyArgs == "mode,false,false" && C34.recursiveLinkArgs == "0,true,true" &&
+  C34.tempThenRename
 
 /-- Obligation a code change can break. -/
 theorem C34_facts_ok : FactsOK = true := by decide
@@ -42,22 +43,35 @@ theorem C34_facts_ok : FactsOK = true := by decide
 theorem facts_link : facts.linkRecreatesSymlink = true := by
   have h := C34_facts_ok
   simp only [FactsOK, Bool.and_eq_true] at h
-  exact h.1.1.1.1.2
+  exact h.1.1.1.1.1.2
+
+theorem facts_temp : facts.tempThenRename = true := by
+  have h := C34_facts_ok
+  simp only [FactsOK, Bool.and_eq_true] at h
+  exact h.2
+
+theorem facts_fallback : facts.fallbackUsesSourceMode = true := by
+  have h := C34_facts_ok
+  simp only [FactsOK, Bool.and_eq_true] at h
+  exact h.1.1.1.2
 
 /-! ### the source is never modified -/
 
-/-- **Source unchanged, unconditional.**  Whatever the source is, whatever the destination already holds, in either
-    mode, with or without fallback, and whether the call succeeds or not along the way: a successful call leaves every
-    inode that existed before -- in particular every file of the source tree, contents and permission bits -- exactly
-    as it was (`inos'` only appends), and the model never rewrites a source directory entry. -/
+/-- **Source unchanged.**  Whatever the source is, whatever the destination already holds (also a destination that is
+    a hard link of a source file), in either mode, with or without fallback: a *successful* call leaves every inode
+    that existed before -- in particular every file of the source tree, contents and permission bits -- exactly as it
+    was (`inos'` only appends).  This rests on the fact read from `WriteFile` on this run (`tempThenRename`: the bytes
+    go to a temporary file that is renamed over the destination); `C34_witness_in_place_write_destroys_source` shows
+    what the same call does without it.  (Failed calls: the model returns no state for them; the harness compares the
+    source snapshot before and after every call, failed or not.) -/
 theorem C34_source_unchanged (p : Params) (sib : Ents) (src : Node) (cur : Option Node) (inos inos' : List Inode)
     (d : Node) (h : copyTop facts p sib src cur inos = .ok (d, inos')) :
     inos <+: inos' ∧ ∀ i, i < inos.length → inos'[i]? = inos[i]? := by
   have hp : inos <+: inos' := by
     unfold copyTop at h
     cases src with
-    | dir es => exact copyNode_prefix facts p _ cur inos inos' d h
-    | file i => exact copyOrLinkRegular_prefix h
+    | dir es => exact copyNode_prefix facts facts_temp p _ cur inos inos' d h
+    | file i => exact copyOrLinkRegular_prefix facts_temp h
     | link t =>
       simp only at h
       split at h
@@ -66,9 +80,16 @@ theorem C34_source_unchanged (p : Params) (sib : Ents) (src : Node) (cur : Optio
         rw [h.2]; exact List.prefix_refl _
       · split at h
         · cases h
-        · exact copyFile_prefix h
+        · exact copyFile_prefix facts_temp h
         · cases h
   exact ⟨hp, fun i hi => prefix_getElem? hp hi⟩
+
+/-- Without temp-and-rename the same call is *not* safe: `dst` is a hard link of the source file `src` (inode 0);
+    `RecursiveCopy(src, dst)` writing in place truncates the shared inode before reading it -- the source's bytes are
+    gone.  (A model-level counterfactual: it shows `C34_source_unchanged` depends on the extracted fact.) -/
+theorem C34_witness_in_place_write_destroys_source :
+    sameOutcome (copyTop { Facts.canon with tempThenRename := false } ⟨0o644, false, false⟩ .nil (.file 0) (some (.file 0))
+      [⟨[7, 8], 0o600⟩]) (.ok (.file 0, [⟨[], 0o600⟩])) = true := by decide
 
 /-! ### faithfulness -/
 
@@ -120,6 +141,15 @@ theorem C34_faithful_partial (p : Params) (sib : Ents) (src : Node) (inos : List
       · simp [h, facts_link]
       · simp [h]
     exact ⟨.link t, inos, by simp [copyTop, hc, symlinkAt, Except.map], List.prefix_refl _, by simp [Node.sort, faithful]⟩
+
+/-- **Hard-linking onto an existing file with `fallback`** (`os.Link` fails with EEXIST): the destination is replaced
+    by a copy with the source's bytes *and the source's permission bits* (not `mode`) in a fresh inode; what was there
+    before is not written to. -/
+theorem C34_fallback_replaces (p : Params) (hl : p.link = true) (hf : p.fallback = true) (sib : Ents) (i j : Nat)
+    (inos : List Inode) (src : Inode) (hi : inos[i]? = some src) :
+    copyTop facts p sib (.file i) (some (.file j)) inos
+      = .ok (.file inos.length, inos ++ [{ content := src.content, perm := if src.perm = 0 then facts.defaultMode else src.perm }]) := by
+  simp [copyTop, copyOrLinkRegular, hl, hf, facts_fallback, copyFile, hi, facts_temp]
 
 /-- `RecursiveLink(from, to)` = `RecursiveCopyOrLinkFile(from, to, 0, true, true)`: faithful for *every* source. -/
 theorem C34_recursive_link_faithful (sib : Ents) (src : Node) (inos : List Inode)
@@ -181,9 +211,6 @@ theorem C34_witness_toplevel_symlink_errors :
 
 /-- The facts read on this run give the same model as `Facts.canon` up to the two free fields. -/
 theorem C34_facts_shape : facts.linkRecreatesSymlink = true ∧ facts.fallbackUsesSourceMode = true ∧
-    facts.dirBeforeSymlink = true := by
-  have h := C34_facts_ok
-  simp only [FactsOK, Bool.and_eq_true] at h
-  exact ⟨h.1.1.1.1.2, h.1.1.2, by simp only [facts]; exact h.1.1.1.1.1.1.2⟩
+    facts.tempThenRename = true := ⟨facts_link, facts_fallback, facts_temp⟩
 
 end PlzVerif.Props.C34
